@@ -494,8 +494,12 @@ static void runConfig(Ctx& c, Rng& rng, const Cfg& cfg, unsigned fam, unsigned k
 						if (notFull != 0) c.fail("C11 persistent refusal: %s: insert %u answered 'Hash table is full' although %zu of %zu buckets are not full (count %zu, %u growths refused in a row)",
 							suiteName.c_str(), k, notFull, bucketsBefore, cnt, persist.refused);
 					}
-					else if (out != "1") c.fail("C11 persistent refusal: %s: insert of the absent key %u answered %s with the bucket array refused for the %u-th time in a row (count %zu, capacity %zu, %zu buckets): "
-						"it must succeed in the existing table unless every bucket on the probe path is full", suiteName.c_str(), k, out.c_str(), persist.refused, countBefore, capBefore, bucketsBefore);
+					else if (out != "1") {
+						if (out != "E:invalid_argument")	// (that one has been reported above)
+							c.fail("C11 persistent refusal: %s: insert of the absent key %u answered %s with the bucket array refused for the %u-th time in a row (count %zu, capacity %zu, %zu buckets): "
+								"it must succeed in the existing table unless every bucket on the probe path is full", suiteName.c_str(), k, out.c_str(), persist.refused, countBefore, capBefore, bucketsBefore);
+						persist.steps = 1000;	// give up refusing: the next insertion finds memory back
+					}
 					const bool grew = armG && (after.size() != before.size() || (!after.empty() && !before.empty() && after[0].L != before[0].L));
 					if (persist.steps % 8 == 0) fullCheck("persistent refusal");
 					if (grew) { persist.phase = 0; c.stats.count("persist.abandoned_table_grew"); }
